@@ -10,22 +10,27 @@ open GunYu GunYu.Slot
 
 /-! ### the committed transaction passes the client's re-validation whole -/
 
+theorem keyIndexes_generic (name key : Bytes) (rest : List Bytes)
+    (h1 : Gen.commandKeyExtractors.lookup (lower name) = none)
+    (h2 : Gen.commandKeyPositions.lookup (lower name) = some (1, 1, 1)) :
+    Filter.keyIndexes name (key :: rest) = some [0] := by
+  unfold Filter.keyIndexes
+  simp only [List.isEmpty_cons, Bool.false_eq_true, ↓reduceIte, h1, h2]
+  unfold Filter.tableIndexes
+  simp only [List.length_cons]
+  have e1 : ¬ ((1 : Int) - 1 < 0 ∨ (1 : Int) - 1 ≥ ((rest.length + 1 : Nat) : Int) ∨ (1 : Int) ≤ 0 ∨ (1 : Int) ≤ 0) := by
+    omega
+  simp only [show ((1 : Int) > 0) = True from by simp, ↓reduceIte, e1]
+  have e2 : ¬ ((1 : Int) - 1 > 1 - 1) := by omega
+  simp only [e2, ↓reduceIte]
+  rfl
+
 theorem commandKeys_generic (name key : Bytes) (rest : List Bytes)
     (h1 : Gen.commandKeyExtractors.lookup (lower name) = none)
     (h2 : Gen.commandKeyPositions.lookup (lower name) = some (1, 1, 1)) :
     commandKeys name (key :: rest) = some [key] := by
-  unfold commandKeys Filter.keyIndexes
-  simp only [List.isEmpty_cons, Bool.false_eq_true, ↓reduceIte, h1, h2]
-  have : Filter.tableIndexes 1 1 1 (key :: rest).length = some [0] := by
-    unfold Filter.tableIndexes
-    simp only [List.length_cons]
-    have e1 : ¬ ((1 : Int) - 1 < 0 ∨ (1 : Int) - 1 ≥ ((rest.length + 1 : Nat) : Int) ∨ (1 : Int) ≤ 0 ∨ (1 : Int) ≤ 0) := by
-      omega
-    simp only [show ((1 : Int) > 0) = True from by simp, ↓reduceIte, e1]
-    have e2 : ¬ ((1 : Int) - 1 > 1 - 1) := by omega
-    simp only [e2, ↓reduceIte]
-    rfl
-  rw [this]
+  unfold commandKeys
+  rw [keyIndexes_generic name key rest h1 h2]
   simp
 
 theorem set_keys (key : Bytes) (rest : List Bytes) : commandKeys wSet (key :: rest) = some [key] :=
